@@ -669,7 +669,11 @@ class TlsHandshakeCertificate(TlsHandshakeMessage):
         return header_bytes + payload_composer.composed_bytes
 
 
+@attr.s(init=False)
 class TlsHandshakeCertificateStatus(TlsHandshakeMessage):
+    status_type = attr.ib()
+    status = attr.ib()
+
     def __init__(self, status_type, status):
         super(TlsHandshakeCertificateStatus, self).__init__()
 
